@@ -1,5 +1,6 @@
 //! sc_sim — deterministic simulation of concurrent callers of `string_calculator` (property C16).
 mod case;
+mod disk;
 mod driver;
 mod gen;
 mod minimise;
